@@ -252,9 +252,11 @@ def gen_value_types_rs(edef, unary, binary, kinds):
         seq.append("p.expect(b')');")
         ctor = ', '.join('%s: f%d' % (fname, i) for i, (fname, ft) in enumerate(fields))
         arms.append('            "%s" => { let p = &mut *self; %s ValueType::%s { %s } }' % (vname, ' '.join(seq), vname, ctor))
+    arms_c = [a.replace('Id(p.num() as u16)', 'cid(p.num() as u32)').replace('p.optid()', 'p.optid().map(|i| cid(i.0 as u32))')
+              .replace('Box::new(p.ty())', 'Box::new(p.cty())') for a in arms]
     un = '\n'.join('            "%s" => show(a.%s()),' % (f, f) for f in unary)
     bi = '\n'.join('            "%s" => show(a.%s(&b.clone().unwrap())),' % (f, f) for f in binary)
-    return RS_TEMPLATE.replace('@ARMS@', '\n'.join(arms)).replace('@UNARY@', un).replace('@BINARY@', bi)
+    return RS_TEMPLATE.replace('@ARMS@', '\n'.join(arms)).replace('@ARMSC@', '\n'.join(arms_c)).replace('@UNARY@', un).replace('@BINARY@', bi)
 
 
 RS_TEMPLATE = r'''// generated: parses wire-format types and evaluates the public ValueType API natively
@@ -285,6 +287,97 @@ impl<'a> P<'a> {
 @ARMS@
             other => panic!("unknown variant {other}"),
         }
+    }
+}
+
+// ---- the same grammar for ValueType<common::Identifier>, used by the resolver hooks
+type CVT = penne::alpha::common::ValueType;
+fn cid(n: u32) -> penne::alpha::common::Identifier {
+    penne::alpha::common::Identifier {
+        name: format!("id{n}"),
+        location: penne::alpha::lexer::Location { source_filename: String::new(), span: 0..0, line_number: 1, line_offset: 1 },
+        resolution_id: n,
+        is_authoritative: true,
+    }
+}
+impl<'a> P<'a> {
+    fn cty(&mut self) -> CVT {
+        use penne::alpha::value_type::ValueType;
+        let w = self.word();
+        match w {
+@ARMSC@
+            other => panic!("unknown variant {other}"),
+        }
+    }
+}
+
+pub fn run_resolver() {
+    use penne::alpha::common::{BinaryOp, ComparisonOp, UnaryOp};
+    use penne::alpha::resolver::verif_hooks as h;
+    let stdin = std::io::stdin();
+    for line in stdin.lock().lines() {
+        let line = line.unwrap();
+        let w: Vec<&str> = line.split(' ').collect();
+        let ty = |s: &str| P { s: s.as_bytes(), i: 0 }.cty();
+        let r = std::panic::catch_unwind(|| match w[0] {
+            "conv" => h::is_valid_primitive_conversion(&ty(w[1]), &ty(w[2])),
+            "bitcast" => h::is_valid_bit_cast(&ty(w[1]), &ty(w[2])),
+            "binop" => {
+                let op = match w[1] {
+                    "Add" => BinaryOp::Add, "Subtract" => BinaryOp::Subtract, "Multiply" => BinaryOp::Multiply,
+                    "Divide" => BinaryOp::Divide, "Modulo" => BinaryOp::Modulo, "BitwiseAnd" => BinaryOp::BitwiseAnd,
+                    "BitwiseOr" => BinaryOp::BitwiseOr, "BitwiseXor" => BinaryOp::BitwiseXor,
+                    "ShiftLeft" => BinaryOp::ShiftLeft, "ShiftRight" => BinaryOp::ShiftRight,
+                    "AdvancePointer" => BinaryOp::AdvancePointer, o => panic!("binop {o}"),
+                };
+                h::binary_op_accepts(op, ty(w[2]))
+            }
+            "cmpop" => {
+                let op = match w[1] {
+                    "Equals" => ComparisonOp::Equals, "DoesNotEqual" => ComparisonOp::DoesNotEqual,
+                    "IsGreater" => ComparisonOp::IsGreater, "IsGE" => ComparisonOp::IsGE,
+                    "IsLess" => ComparisonOp::IsLess, "IsLE" => ComparisonOp::IsLE, o => panic!("cmpop {o}"),
+                };
+                h::comparison_op_accepts(op, ty(w[2]))
+            }
+            "unop" => {
+                let op = match w[1] {
+                    "Negative" => UnaryOp::Negative, "BitwiseComplement" => UnaryOp::BitwiseComplement,
+                    o => panic!("unop {o}"),
+                };
+                h::unary_op_accepts(op, ty(w[2]))
+            }
+            o => panic!("unknown request {o}"),
+        });
+        match r {
+            Ok(b) => println!("{}", b),
+            Err(_) => println!("PANIC"),
+        }
+    }
+}
+
+pub fn run_lint() {
+    use penne::alpha::common::{Declaration, Expression};
+    let loc = || penne::alpha::lexer::Location { source_filename: String::new(), span: 0..0, line_number: 1, line_offset: 1 };
+    let stdin = std::io::stdin();
+    for line in stdin.lock().lines() {
+        let line = line.unwrap();
+        let w: Vec<&str> = line.split(' ').collect();
+        let vt = P { s: w[2].as_bytes(), i: 0 }.cty();
+        let value = match w[0] {
+            "signed" => Expression::SignedIntegerLiteral { value: w[1].parse::<i128>().unwrap(), value_type: Some(Ok(vt.clone())), location: loc() },
+            "bit" => Expression::BitIntegerLiteral { value: w[1].parse::<u128>().unwrap(), value_type: Some(Ok(vt.clone())), location: loc() },
+            o => panic!("unknown literal kind {o}"),
+        };
+        let decl = Declaration::Constant {
+            name: cid(1), value, value_type: Ok(vt), flags: Default::default(), depth: None,
+            location_of_declaration: loc(), location_of_type: loc(),
+        };
+        let mut linter = penne::alpha::linter::Linter::default();
+        linter.lint(&decl);
+        let lints: Vec<penne::alpha::linter::Lint> = linter.into();
+        let codes: Vec<u16> = lints.iter().map(|l| l.code()).collect();
+        println!("{:?}", codes);
     }
 }
 
